@@ -15,6 +15,10 @@ import sys
 
 
 # --------------------------------------------------------------------------- event loop
+WORKER = {'depth': 0}
+THREAD_VIOLATIONS = []
+
+
 class InlineExecutor:
     """ThreadPoolExecutor stand-in: the submitted function runs to completion at submit."""
 
@@ -23,12 +27,15 @@ class InlineExecutor:
 
     def submit(self, fn, *a, **k):
         f = concurrent.futures.Future()
+        WORKER['depth'] += 1          # fn stands for code running on a worker thread, not on the loop thread
         try:
             f.set_result(fn(*a, **k))
         except BaseException as e:  # noqa
             if not isinstance(e, Exception):
                 raise
             f.set_exception(e)
+        finally:
+            WORKER['depth'] -= 1
         return f
 
     def shutdown(self, *a, **k):
@@ -136,11 +143,13 @@ def run_coroutine_threadsafe(coro, loop):
     cur = asyncio.current_task(loop)
     if cur is not None:
         asyncio.tasks._leave_task(loop, cur)
+    depth, WORKER['depth'] = WORKER['depth'], 0       # the loop thread runs the coroutine; the worker only waits
     try:
         task = loop.create_task(coro)
         while not task.done():
             loop._step()
     finally:
+        WORKER['depth'] = depth
         if cur is not None:
             asyncio.tasks._enter_task(loop, cur)
     f = concurrent.futures.Future()
@@ -149,6 +158,27 @@ def run_coroutine_threadsafe(coro, loop):
     else:
         f.set_result(task.result())
     return f
+
+
+class GuardedSlots(asyncio.PriorityQueue):
+    """asyncio queues are not thread-safe: they may only be touched on the loop thread (worker threads have to go through
+    loop.call_soon_threadsafe / run_coroutine_threadsafe). Touching one while 'on a worker thread' is recorded."""
+
+    def put_nowait(self, item):
+        if WORKER['depth'] > 0:
+            THREAD_VIOLATIONS.append('asyncio slot queue: put_nowait called from a worker thread')
+        return super().put_nowait(item)
+
+    def get_nowait(self):
+        if WORKER['depth'] > 0:
+            THREAD_VIOLATIONS.append('asyncio slot queue: get_nowait called from a worker thread')
+        return super().get_nowait()
+
+
+def guard_slots(repo):
+    repo._slots.__class__ = GuardedSlots
+    del THREAD_VIOLATIONS[:]
+    return repo
 
 
 class _AsyncioShim:
